@@ -6,7 +6,7 @@ use std::os::raw::{c_char, c_int, c_long};
 use std::path::Path;
 use std::sync::OnceLock;
 
-pub const NCLASS: usize = 12;
+pub const NCLASS: usize = 13;
 pub const CL_OPENDIR: usize = 0;
 pub const CL_READDIR: usize = 1;
 pub const CL_OPEN_FILE: usize = 2;
@@ -18,9 +18,10 @@ pub const CL_FTRUNCATE: usize = 7;
 pub const CL_FSYNC: usize = 8;
 pub const CL_UNLINK: usize = 9;
 pub const CL_CLOSE: usize = 10;
+pub const CL_STAT: usize = 12;
 pub const CLASS_NAMES: [&str; NCLASS] = [
     "opendir", "readdir", "open_file", "open_dirfd", "read", "write", "lseek", "ftruncate",
-    "fsync", "unlink", "close", "other",
+    "fsync", "unlink", "close", "other", "stat",
 ];
 
 pub const MARK_BEGIN: u32 = 1;
@@ -40,6 +41,7 @@ struct Api {
     total: unsafe extern "C" fn() -> c_long,
     unmodelled: unsafe extern "C" fn() -> c_long,
     delivered: unsafe extern "C" fn() -> c_long,
+    dt_unknown: unsafe extern "C" fn(c_int),
 }
 
 static API: OnceLock<Option<Api>> = OnceLock::new();
@@ -70,6 +72,7 @@ fn api() -> Option<&'static Api> {
             total: sym("iot_total")?,
             unmodelled: sym("iot_unmodelled")?,
             delivered: sym("iot_delivered")?,
+            dt_unknown: sym("iot_dt_unknown")?,
         })
     })
     .as_ref()
@@ -126,6 +129,11 @@ pub fn total() -> i64 {
 pub fn delivered() -> i64 {
     unsafe { (must().delivered)() as i64 }
 }
+/// Hostile-but-legal file system: every directory entry under the root is reported with
+/// d_type = DT_UNKNOWN (the caller then has to stat it to learn its type).
+pub fn dt_unknown(on: bool) {
+    unsafe { (must().dt_unknown)(on as c_int) }
+}
 pub fn unmodelled() -> i64 {
     unsafe { (must().unmodelled)() as i64 }
 }
@@ -156,6 +164,8 @@ pub enum Ev {
     Rmdir { name: String },
     Mark { kind: u32, id: u64 },
     Unmodelled { what: String, name: String },
+    /// stat / lstat / fstat / statx on a path or fd under the root
+    Stat { name: String, err: i32 },
 }
 
 impl Ev {
@@ -183,6 +193,7 @@ impl Ev {
             Ev::Rmdir { .. } => "rmdir",
             Ev::Mark { .. } => "mark",
             Ev::Unmodelled { .. } => "unmodelled",
+            Ev::Stat { .. } => "stat",
         }
     }
     /// Does this event change the directory image?
@@ -273,6 +284,7 @@ pub fn take_events(root: &Path) -> Vec<Ev> {
             14 => Ev::Mkdir { name: rel(path_id) },
             15 => Ev::Rmdir { name: rel(path_id) },
             17 => Ev::CloseDir,
+            18 => Ev::Stat { name: rel(path_id), err },
             _ => Ev::Unmodelled { what: format!("event kind {}", kind), name: String::new() },
         };
         out.push(ev);
